@@ -14,6 +14,7 @@ fn main() {
         Some("pattern") => pattern::one(&args[1..]),
         Some("route") => service::route(&args[1..]),
         Some("meta") => service::meta(&args[1..]),
+        Some("amz-date") => service::amz_date(&args[1..]),
         Some("error-table") => error::table(),
         Some("error-one") => error::one(&args[1..]),
         _ => serde_json::json!({"error": "usage: replay <range-search|range|pattern-search|pattern> …"}),
